@@ -146,7 +146,8 @@ def build_witness(w):
     if k == 'single2':
         return T.make_single_sig_witness2(w['seed'], dict(f), fl).bytes
     if k == 'multi':
-        return b''.join(T.make_single_sig_witness(s, dict(f), fl).bytes for s in w['seeds'])
+        flags = w.get('flags') or [w.get('flag', 0)] * len(w['seeds'])
+        return b''.join(T.make_single_sig_witness(s, dict(f), '%02x' % fg).bytes for s, fg in zip(w['seeds'], flags))
     if k == 'scripthash':
         return T.make_scripthash_witness(T.Script.from_bytes(w['script'])).bytes
     if k == 'graftroot-key':
@@ -229,7 +230,7 @@ def fields_st(draw):
 def pair_case(draw):
     tag = draw(st.binary(min_size=1, max_size=2))
     fields = draw(fields_st())
-    allowed = draw(st.sampled_from([0, 0, 1, 0x81, 0xff, 0x0f]))
+    allowed = draw(st.sampled_from([0, 0, 1, 0x81, 0xff, 0x0f, 0x7f, 0x7e]))
     flag = draw(st.sampled_from([0, 0, allowed, allowed & 0x01, allowed & 0x80]))
     seed = seed_of(0, tag)
     pk = E.pub(seed)
@@ -251,6 +252,8 @@ def pair_case(draw):
         lock = {'kind': 'scripthash', 'script': script, 'hs': draw(st.one_of(st.sampled_from([1, 2, 20, 26, 32, 64]), st.integers(1, 64)))}
     case = {'check': 'pair', 'lock': lock, 'witness': wit, 'fields': fields, 'matched': True, 'perturbation': None}
     plist = ['none', 'none', 'none', 'other-key', 'covered-field', 'excluded-field', 'non-permitted-flag', 'cross', 'cross']
+    if lockkind == 'multisig':
+        plist = plist + ['same-signer-twice', 'same-signer-twice']
     if kind in ('scripthash', 'graftroot-surrogate', 'graftap-script'):
         plist = ['none', 'none', 'other-key', 'other-script', 'other-script', 'surrogate-foreign-signer',
                  'surrogate-foreign-signer', 'cross']
@@ -268,6 +271,14 @@ def pair_case(draw):
         if kind in ('scripthash',):
             case['matched'] = True
             case['perturbation'] = None
+    elif p == 'same-signer-twice':
+        # one holder signs twice (second signature under another permitted flag): still one signer
+        bit = [b for b in range(8) if (allowed >> b) & 1][0] if allowed else 0
+        if len(wit['seeds']) >= 2 and allowed and (flag | (1 << bit)) != 0xff:
+            wit['seeds'][1] = wit['seeds'][0]
+            wit['flags'] = [flag & ~(1 << bit), flag | (1 << bit)] + [flag] * (len(wit['seeds']) - 2)
+        else:
+            case['matched'], case['perturbation'] = True, None
     elif p == 'covered-field':
         cov = [k for k in sorted(fields) if not (flag >> (int(k[-1]) - 1)) & 1]
         if cov and 'fields' in wit and kind not in ('scripthash', 'graftroot-surrogate', 'graftap-script'):
@@ -283,8 +294,9 @@ def pair_case(draw):
         case['perturbation'] = 'excluded-field'
     elif p == 'non-permitted-flag':
         bad = [b for b in range(8) if not (allowed >> b) & 1]
-        if bad and kind not in ('scripthash', 'graftroot-surrogate', 'graftap-script') and (flag | (1 << bad[0])) != 0xff:
-            wit['flag'] = flag | (1 << bad[0])
+        badbit = bad[draw(st.integers(0, len(bad) - 1))] if bad else 0
+        if bad and kind not in ('scripthash', 'graftroot-surrogate', 'graftap-script') and (flag | (1 << badbit)) != 0xff:
+            wit['flag'] = flag | (1 << badbit)
         else:
             case['matched'], case['perturbation'] = True, None
     elif p == 'other-script':
